@@ -17,6 +17,7 @@ import (
 	"fmt"
 	"os"
 	"path/filepath"
+	"runtime"
 	"sort"
 	"strings"
 	"sync"
@@ -536,6 +537,12 @@ func (w *world) exec(script []string, r *gen.Rand) {
 				}
 				w.drainPending()
 			}
+		case "spsweep":
+			// a whole password change with an observer reading at EVERY store access the call makes
+			if w.sp != nil {
+				continue
+			}
+			w.sweep(bit(1), bit(2), bit(3), r)
 		case "spto":
 			if w.sp == nil {
 				out.Op(line, "not-enabled")
@@ -598,6 +605,149 @@ func (w *world) exec(script []string, r *gen.Rand) {
 	}
 }
 
+// ---------------------------------------------------------------- observer at every store access of a password change
+
+func goid() string {
+	var buf [64]byte
+	n := runtime.Stack(buf[:], false)
+	f := strings.Fields(string(buf[:n]))
+	if len(f) > 1 {
+		return f[1]
+	}
+	return "?"
+}
+
+// key class of a store access (deterministic text for the op line)
+func accessClass(p string) string {
+	for _, k := range []string{"get:PasswordHash", "get:walletseed", "get:Encryption", "scan:Account", "write"} {
+		if strings.HasPrefix(p, k) {
+			return k
+		}
+	}
+	if i := strings.IndexAny(p, ":"); i > 0 {
+		if j := strings.IndexAny(p[i+1:], ":"); j > 0 {
+			return p[:i+1+j]
+		}
+	}
+	return p
+}
+
+type obs struct {
+	class, flag string
+}
+
+// sweep runs ProcWalletSetPasswd to completion; at every store access made by the call itself (Get / Iterator / batch
+// write through VerifWrapStoreDB) the call waits while an observer on this goroutine reads IsWalletLocked() and
+// GetWalletStatus() and fires one guarded handler (ProcDumpPrivkey, which has to wait for wallet.mtx).
+func (w *world) sweep(oldOk, newValid, writeOk bool, r *gen.Rand) {
+	c := &spCall{oldOk: oldOk, newValid: newValid, writeOk: writeOk, done: make(chan error, 1), at: "sweep"}
+	c.newPass = w.nextPass(newValid, r)
+	old := w.pw
+	if !oldOk {
+		old = "wrong" + w.pw
+	}
+	if !writeOk {
+		atomic.StoreInt32(&w.e.failNextWrite, 1)
+	}
+	w.sp = c
+	req := &types.ReqWalletSetPasswd{OldPass: old, NewPass: c.newPass}
+	obsReq := make(chan string)
+	obsAck := make(chan struct{})
+	var callGo atomic.Value
+	w.e.setOnPoint(func(p string) {
+		if g, _ := callGo.Load().(string); g != "" && g == goid() {
+			obsReq <- p
+			<-obsAck
+		}
+	})
+	go func() {
+		defer func() {
+			if p := recover(); p != nil {
+				c.done <- fmt.Errorf("panic")
+			}
+		}()
+		callGo.Store(goid())
+		err := w.e.w.ProcWalletSetPasswd(req)
+		callGo.Store("")
+		c.done <- err
+	}()
+	addr, key := w.addrs[0], w.keys[w.addrs[0]]
+	var seen []obs
+	var dumps []chan string
+	var ret string
+	running := true
+	for running {
+		select {
+		case p := <-obsReq:
+			flag := w.readFlag()
+			seen = append(seen, obs{accessClass(p), flag})
+			if flag == "unlocked" && !w.auth {
+				c.at = "store access " + accessClass(p)
+				w.predUnlocked("observer at a store access of the call")
+			}
+			d := make(chan string, 1)
+			dumps = append(dumps, d)
+			go func() {
+				k, err := w.e.w.ProcDumpPrivkey(addr)
+				switch {
+				case err != nil:
+					d <- errName(err)
+				case k == key:
+					d <- "secret"
+				default:
+					d <- "wrong-answer"
+				}
+			}()
+			obsAck <- struct{}{}
+		case err := <-c.done:
+			ret = errName(err)
+			if err == nil {
+				w.pw = c.newPass
+			}
+			running = false
+		case <-time.After(longWait):
+			ret = "timeout"
+			running = false
+		}
+	}
+	w.e.setOnPoint(func(string) {})
+	atomic.StoreInt32(&w.e.failNextWrite, 0)
+	w.sp = nil
+	flag := w.readFlag()
+	line := fmt.Sprintf("spbegin %d %d %d", b01(oldOk), b01(newValid), b01(writeOk))
+	if ret == "ErrInvalidPassWord" {
+		// the call returned before it became a running change in the model: its accesses were plain reads
+		for _, o := range seen {
+			out.Op("read", o.flag)
+		}
+		out.Op(line, "ret:ErrInvalidPassWord")
+	} else {
+		out.Op(line, "mid")
+		for _, o := range seen {
+			out.Op("spobs "+o.class, o.flag)
+		}
+		out.Op("spto ret", "ret:"+ret+" "+flag)
+	}
+	if flag == "unlocked" && !w.auth {
+		w.predUnlocked("after return")
+	}
+	// the key dumps fired during the call ran after it returned
+	for _, d := range dumps {
+		select {
+		case res := <-d:
+			if res == "secret" && !w.auth {
+				out.Pred("C38|ProcDumpPrivkey|secret-returned-without-successful-unlock", "a key dump fired at a store access of a running password change returned a stored key on a wallet that was never unlocked")
+			}
+			out.Op("guarded", res)
+		case <-time.After(longWait):
+			out.Op("guarded", "blocked-forever")
+			out.Pred("C38|wallet.mtx|call-still-blocked-after-password-change-returned", "key dump fired during a sweep")
+		}
+	}
+	out.Stat("sweep_calls", 1)
+	out.Stat("sweep_observations", int64(len(seen)))
+}
+
 // ---------------------------------------------------------------- script generators
 
 func witnessScript() []string {
@@ -610,6 +760,11 @@ func witnessScript() []string {
 		"guarded",       // a key dump at this moment waits for wallet.mtx
 		"spto ret",      // the call fails with ErrVerifyOldpasswdFail and restores the flag
 		"read", "guarded",
+		"spsweep 0 1 1", // observer at every store access: wrong old password …
+		"spsweep 1 1 1", // … and a successful change on the locked wallet (password not cached, then cached)
+		"spsweep 1 1 0",
+		"read", "guarded",
+		"unlock 1 0 0", "spsweep 1 1 1", "spsweep 0 1 1", "lock", "read",
 	}
 }
 
@@ -620,7 +775,13 @@ func randomScript(r *gen.Rand, n int) []string {
 	pendUsed := false
 	for len(s) < n {
 		if held == "" {
-			switch r.Pick(18, 10, 14, 8, 30, 6) {
+			switch r.Pick(18, 10, 14, 8, 30, 6, 24) {
+			case 6:
+				oldOk := r.Chance(3, 5)
+				s = append(s, fmt.Sprintf("spsweep %d %d %d", b01(oldOk), b01(r.Chance(9, 10)), b01(r.Chance(5, 6))))
+				if oldOk {
+					memPw = true // approximately: a successful change caches the password
+				}
 			case 0:
 				ok := r.Chance(2, 3)
 				s = append(s, fmt.Sprintf("unlock %d %d 0", b01(ok), b01(r.Chance(1, 5))))
@@ -729,9 +890,20 @@ func raceTransient(w *world, attempts int, tag string) {
 		}
 	}()
 	req := &types.ReqWalletSetPasswd{OldPass: "wrong" + w.pw, NewPass: "verifpassX1"}
+	var want error = types.ErrVerifyOldpasswdFail
+	rightOld := strings.HasPrefix(tag, "right-old")
+	if rightOld {
+		// successful changes (right old password, same new password) on the locked wallet
+		req = &types.ReqWalletSetPasswd{OldPass: w.pw, NewPass: w.pw}
+		want = nil
+	}
 	for k := 0; k < attempts; k++ {
-		if err := w.e.w.ProcWalletSetPasswd(req); err != types.ErrVerifyOldpasswdFail {
-			out.Pred("C38|ProcWalletSetPasswd|wrong-old-password-not-rejected", "concurrent run: "+errName(err))
+		if err := w.e.w.ProcWalletSetPasswd(req); err != want {
+			if rightOld {
+				out.Note("raceTransient: password change with the right old password failed: " + errName(err))
+			} else {
+				out.Pred("C38|ProcWalletSetPasswd|wrong-old-password-not-rejected", "concurrent run: "+errName(err))
+			}
 			break
 		}
 	}
@@ -743,14 +915,17 @@ func raceTransient(w *world, attempts int, tag string) {
 	out.Stat("race_transient_seen_GetWalletStatus_"+tag, seenStatus)
 	out.Stat("race_transient_dump_calls_"+tag, dumps)
 	if seenRaw+seenStatus > 0 {
-		out.Pred("C38|ProcWalletSetPasswd|observer-sees-unlocked-during-password-change-with-wrong-old-password",
-			fmt.Sprintf("polling observers (%s): %d x IsWalletLocked()==false, %d x GetWalletStatus().IsWalletLock==false during %d failing ProcWalletSetPasswd calls on a locked wallet that was never unlocked", tag, seenRaw, seenStatus, attempts))
+		sig := "C38|ProcWalletSetPasswd|observer-sees-unlocked-during-password-change-with-wrong-old-password"
+		if rightOld {
+			sig = "C38|ProcWalletSetPasswd|observer-sees-unlocked-during-password-change-of-locked-wallet"
+		}
+		out.Pred(sig, fmt.Sprintf("polling observers (%s): %d x IsWalletLocked()==false, %d x GetWalletStatus().IsWalletLock==false during %d ProcWalletSetPasswd calls on a locked wallet that was never unlocked", tag, seenRaw, seenStatus, attempts))
 	}
 	if secrets > 0 {
 		out.Pred("C38|ProcDumpPrivkey|secret-returned-without-successful-unlock", fmt.Sprintf("concurrent run (%s): %d key dumps succeeded on a locked wallet", tag, secrets))
 	}
 	if w.readFlag() != "locked" {
-		out.Pred("C38|quiescent|wallet-unlocked-without-successful-unlock", "after the concurrent run with only wrong passwords the wallet is unlocked")
+		out.Pred("C38|quiescent|wallet-unlocked-without-successful-unlock", "after the concurrent run of password changes on a locked wallet ("+tag+") the wallet is unlocked")
 	}
 }
 
@@ -1067,6 +1242,9 @@ func main() {
 	w.e.restart()
 	phase("transient-cached")
 	raceTransient(w, gen.Scale(8000, 400000), "password-not-cached")
+	raceTransient(w, gen.Scale(4000, 200000), "right-old-password-not-cached")
+	w.e.w.ProcWalletLock()
+	raceTransient(w, gen.Scale(8000, 400000), "right-old-password-cached")
 	phase("transient-not-cached")
 	w.e.w.ProcWalletUnLock(&types.WalletUnLock{Passwd: w.pw, WalletOrTicket: true})
 	raceLostLock(w, r, gen.Scale(20000, 400000))
